@@ -94,6 +94,13 @@ func (fr *frame) get(key ssa.Value) Value {
 				return r
 			}
 		}
+		if key.Pkg != nil && key.Pkg.Pkg.Path() == "time" {
+			// time.Local / time.UTC etc.: zero-valued cells are enough for the Time values harnesses build
+			v := zero(deref(key.Type()))
+			fr.in.globals[key] = &v
+			fr.in.stubsUsed["time package globals (zero-initialised)"]++
+			return fr.in.globals[key]
+		}
 		panic(engineErr("read of global of a package that was not initialised: " + key.String()))
 	}
 	if r, ok := fr.env[key]; ok {
